@@ -18,9 +18,22 @@ package regprocessor
 // Stress part: ungated requests against concurrent reloads; in the thorough tier and in the targeted
 // search also continuous stress (requests keep going against 1500 back-to-back reloads).
 //
+// Critical sections kept open: the write-side critical section of ReloadSubnets (the swap) and the read
+// section of a request (the snapshot) contain no point at which a goroutine can be held, so "a request
+// arrives while a reload is swapping" and "a request arrives while a reload waits for the write lock behind
+// another request" cannot be produced with the gates above. Two white-box stand-ins do it: thread `w:hold`
+// takes p.selectorMutex.Lock() itself, is held by the harness, and unlocks (the swap window of a reload,
+// stretched); `h:read` does the same with RLock/RUnlock (a request in the middle of its snapshot). Requests
+// and real reloads started meanwhile must be *blocked, not failed*, and complete successfully afterwards.
+// The stress runs have the same stand-in as goroutines that keep taking the write lock for a few
+// scheduler yields.
+//
 // Oracle (independent of the model): after all gates are released every request and every reload has
 // completed (a started goroutine blocked in a lock of the processor with nothing left to run is a
-// deadlock), and the addresses of one response come from one version of the subnet file.
+// deadlock); every request and every reload that succeeds when it runs alone (established by running it
+// alone at start-up) has succeeded - a request answered with an error because a reload was in progress has
+// not been answered, and a reload that gave up has not completed -; and the addresses of one response come
+// from one version of the subnet file.
 
 import (
 	"bufio"
@@ -31,6 +44,7 @@ import (
 	"os"
 	"os/exec"
 	"path/filepath"
+	"regexp"
 	"runtime"
 	"sort"
 	"strconv"
@@ -260,6 +274,55 @@ func c13Processor(gated bool) (*RegProcessor, *c13Gated) {
 }
 
 // ---------------------------------------------------------------------------------------------
+// baseline: which calls succeed when they run alone
+
+// c13Solo: thread spec -> the call succeeds on a processor nobody else uses (on the initial selector and
+// after one reload). The oracle demands success under concurrency exactly of these.
+var c13Solo = map[string]bool{}
+
+func c13Baseline(out *vlib.Out) {
+	for _, k := range c13Kinds {
+		ok := true
+		for round := 0; round < 2 && ok; round++ {
+			p, _ := c13Processor(false)
+			if round == 1 {
+				os.Setenv("PHANTOM_SUBNET_LOCATION", c13File(1))
+				if err := p.ReloadSubnets(); err != nil {
+					panic("c13: a reload alone failed: " + err.Error())
+				}
+			}
+			func() {
+				defer func() {
+					if recover() != nil {
+						ok = false
+					}
+				}()
+				var err error
+				if k.uni {
+					err = p.RegisterUnidirectional(k.request(7), pb.RegistrationSource_API, net.ParseIP("198.51.100.7").To4())
+				} else {
+					_, err = p.RegisterBidirectional(k.request(7), pb.RegistrationSource_BidirectionalAPI, net.ParseIP("198.51.100.7").To4())
+				}
+				if err != nil {
+					ok = false
+				}
+			}()
+		}
+		c13Solo[k.spec()] = ok
+		if ok == k.fails() {
+			out.Note(fmt.Sprintf("request kind %s is declared %q but alone it %s", k.spec(), k.exit, map[bool]string{true: "succeeds", false: "fails"}[ok]))
+			out.Count("baseline:differs-from-declared-kind")
+		}
+	}
+	p, _ := c13Processor(false)
+	os.Setenv("PHANTOM_SUBNET_LOCATION", c13File(1))
+	c13Solo["r:ok"] = p.ReloadSubnets() == nil
+	os.Setenv("PHANTOM_SUBNET_LOCATION", filepath.Join(c13Dir, "does-not-exist.toml"))
+	c13Solo["r:early"] = p.ReloadSubnets() == nil
+	os.Setenv("PHANTOM_SUBNET_LOCATION", c13File(0))
+}
+
+// ---------------------------------------------------------------------------------------------
 // goroutine states from one stop-the-world dump
 
 func c13GID() int64 {
@@ -396,7 +459,7 @@ func c13Calibrate(t *testing.T) {
 
 // c13Where: which lock of the processor a blocked goroutine waits for ("" = none of them).
 func c13Where(text string) string {
-	if strings.Contains(text, "(*Metrics)") || !strings.Contains(text, "(*RegProcessor).") {
+	if strings.Contains(text, "(*Metrics)") || !(strings.Contains(text, "(*RegProcessor).") || strings.Contains(text, ".c13HolderBody")) {
 		return ""
 	}
 	switch {
@@ -418,7 +481,7 @@ func c13Dump(ids map[int64]bool) (map[int64]c13GState, map[int64]string) {
 		status, s := st[0], st[1]
 		state := c13Busy
 		switch {
-		case status == "chan receive" && strings.Contains(s, "(*c13Gated).Select"):
+		case status == "chan receive" && (strings.Contains(s, "(*c13Gated).Select") || strings.Contains(s, ".c13HoldGate(")):
 			state = c13Parked
 		case c13WaitStatus[status] && c13Where(s) != "":
 			state = c13Blocked
@@ -435,7 +498,8 @@ func c13Dump(ids map[int64]bool) (map[int64]c13GState, map[int64]string) {
 type c13Thread struct {
 	spec     string
 	reload   bool
-	relOK    bool // reload that is expected to load a file
+	relOK    bool   // reload that is expected to load a file
+	holder   string // "w" / "r": stand-in that keeps a write / read section of selectorMutex open at a gate
 	kind     c13Kind
 	started  bool
 	gid      atomic.Int64
@@ -464,6 +528,10 @@ func c13ParseThreads(specs []string) ([]*c13Thread, error) {
 			t.reload, t.relOK = true, true
 		case s == "r:early":
 			t.reload = true
+		case s == "w:hold":
+			t.holder = "w"
+		case s == "h:read":
+			t.holder = "r"
 		default:
 			k, ok := c13KindOf(s)
 			if !ok {
@@ -485,6 +553,10 @@ func newC13Scenario(specs []string) (*c13Scenario, error) {
 	p, g := c13Processor(true)
 	sc := &c13Scenario{p: p, g: g, ths: ths}
 	for i, t := range ths {
+		if t.holder != "" {
+			t.gate = &c13Gate{ch: make(chan struct{})}
+			continue
+		}
 		if t.reload || t.kind.noPayload || t.kind.uni {
 			continue
 		}
@@ -524,6 +596,10 @@ func (sc *c13Scenario) start(i int) {
 			t.err = sc.p.ReloadSubnets()
 			return
 		}
+		if t.holder != "" {
+			c13HolderBody(sc.p, t.holder == "w", t.gate.ch)
+			return
+		}
 		if t.kind.uni {
 			t.err = sc.p.RegisterUnidirectional(t.kind.request(i), pb.RegistrationSource_API, net.ParseIP("198.51.100.7").To4())
 			return
@@ -532,6 +608,24 @@ func (sc *c13Scenario) start(i int) {
 	}()
 	<-ready
 }
+
+// c13HolderBody: a critical section of selectorMutex kept open until the harness releases the gate.
+//
+//go:noinline
+func c13HolderBody(p *RegProcessor, write bool, gate chan struct{}) {
+	if write {
+		p.selectorMutex.Lock()
+		c13HoldGate(gate)
+		p.selectorMutex.Unlock()
+		return
+	}
+	p.selectorMutex.RLock()
+	c13HoldGate(gate)
+	p.selectorMutex.RUnlock()
+}
+
+//go:noinline
+func c13HoldGate(gate chan struct{}) { <-gate }
 
 // c13SettleLimit only guards the harness against hanging for ever; it is not part of any verdict (a run
 // that does not settle is a harness failure, never an oracle failure). Generous, because the machine may
@@ -640,6 +734,7 @@ type c13Result struct {
 	enabled  []string
 	deadlock []string // descriptions of goroutines blocked for good
 	mixed    []string // responses whose addresses come from different versions
+	refused  []string // requests / reloads that succeed alone and returned an error here
 	panics   []string
 	texts    map[int]string
 }
@@ -698,6 +793,8 @@ func c13Run(specs, events []string, drain bool) (*c13Result, error) {
 			where := "request blocked in RLock"
 			if t.reload {
 				where = "reload blocked in Lock"
+			} else if t.holder != "" {
+				where = "stand-in critical section blocked in " + map[string]string{"w": "Lock", "r": "RLock"}[t.holder]
 			} else if c13Where(texts[i]) == "zmqLock" {
 				where = "request blocked in zmqMutex.Lock"
 			}
@@ -705,13 +802,20 @@ func c13Run(specs, events []string, drain bool) (*c13Result, error) {
 		case t.panicked != nil:
 			parts = append(parts, "panic")
 			res.panics = append(res.panics, fmt.Sprintf("thread %d (%s): %v", i, t.spec, t.panicked))
+		case t.holder != "":
+			parts = append(parts, "done")
 		case t.reload:
 			parts = append(parts, "done")
 			if t.err == nil {
 				ver++
+			} else if c13Solo[t.spec] {
+				res.refused = append(res.refused, fmt.Sprintf("reload thread %d (%s) gave up: %v", i, t.spec, t.err))
 			}
 		case t.err != nil:
 			parts = append(parts, "done:err")
+			if c13Solo[t.spec] {
+				res.refused = append(res.refused, fmt.Sprintf("request thread %d (%s) was answered with an error: %v", i, t.spec, t.err))
+			}
 		case t.kind.uni:
 			parts = append(parts, "done:sent")
 		default:
@@ -782,6 +886,15 @@ func c13Report(out *vlib.Out, specs, events []string, res *c13Result) {
 	} else {
 		out.Count("outcome:all-complete")
 	}
+	if len(res.refused) > 0 {
+		kind := "request"
+		if strings.HasPrefix(res.refused[0], "reload") {
+			kind = "reload"
+		}
+		out.OracleFail("C13:not-answered:"+kind,
+			"a call that succeeds when it runs alone did not succeed next to the other threads of this interleaving (all of them completed): "+strings.Join(res.refused, "; "), line)
+		out.Count("outcome:not-answered")
+	}
 	for _, m := range res.mixed {
 		out.OracleFail("C13:mixed-versions", "one request used two versions of the subnet set: "+m, line)
 	}
@@ -826,16 +939,22 @@ func c13Explore(t *testing.T, out *vlib.Out, specs, prefix []string, budget *int
 // reloaders are done, so that every reload's write-lock request meets requests in flight
 var c13StressContinuous bool
 
+// c13StressHolders: number of stand-in goroutines that keep taking the write lock of selectorMutex for a few
+// scheduler yields (a stretched swap window), so that requests and reloads do arrive while it is held
+var c13StressHolders int
+
 func c13Stress(t *testing.T, out *vlib.Out, r *vlib.Rand, nReq, nRounds, nReload, nReloaders int) {
 	p, _ := c13Processor(false)
+	nHolders := c13StressHolders
 	type worker struct {
 		gid  atomic.Int64
 		done atomic.Bool
 		rel  bool
 	}
 	var workers []*worker
-	var mixed, panics atomic.Int64
-	var firstMixed atomic.Value
+	var mixed, panics, refusedReq, refusedRel, requestsLeft atomic.Int64
+	var firstMixed, firstRefusedReq, firstRefusedRel atomic.Value
+	requestsLeft.Store(int64(nReq))
 	succ := []c13Kind{}
 	for _, k := range c13Kinds {
 		succ = append(succ, k)
@@ -860,19 +979,27 @@ func c13Stress(t *testing.T, out *vlib.Out, r *vlib.Rand, nReq, nRounds, nReload
 		go func(i int) {
 			w.gid.Store(c13GID())
 			defer w.done.Store(true)
+			defer requestsLeft.Add(-1)
 			defer func() {
 				if recover() != nil {
 					panics.Add(1)
 				}
 			}()
 			<-startGate
+			notAnswered := func(k c13Kind, err error) {
+				// the same call succeeds when nothing runs next to it
+				if err != nil && c13Solo[k.spec()] && refusedReq.Add(1) == 1 {
+					firstRefusedReq.Store(fmt.Sprintf("%s: %v", k.spec(), err))
+				}
+			}
 			for j := 0; j < len(plans[i]) || (c13StressContinuous && reloadersLeft.Load() > 0); j++ {
 				k := plans[i][j%len(plans[i])]
 				if k.uni {
-					_ = p.RegisterUnidirectional(k.request(1000+i*nRounds+j%nRounds), pb.RegistrationSource_API, net.ParseIP("198.51.100.7").To4())
+					notAnswered(k, p.RegisterUnidirectional(k.request(1000+i*nRounds+j%nRounds), pb.RegistrationSource_API, net.ParseIP("198.51.100.7").To4()))
 					continue
 				}
 				resp, err := p.RegisterBidirectional(k.request(1000+i*nRounds+j%nRounds), pb.RegistrationSource_BidirectionalAPI, net.ParseIP("198.51.100.7").To4())
+				notAnswered(k, err)
 				if err != nil || resp == nil {
 					continue
 				}
@@ -898,18 +1025,36 @@ func c13Stress(t *testing.T, out *vlib.Out, r *vlib.Rand, nReq, nRounds, nReload
 			for j := 0; j < nReload; j++ {
 				v := int(verCtr.Add(1))
 				os.Setenv("PHANTOM_SUBNET_LOCATION", c13File(v%60000+1))
-				_ = p.ReloadSubnets()
+				if err := p.ReloadSubnets(); err != nil && c13Solo["r:ok"] && refusedRel.Add(1) == 1 {
+					firstRefusedRel.Store(err.Error())
+				}
 				if j%3 == 0 {
 					runtime.Gosched()
 				}
 			}
 		}()
 	}
+	for i := 0; i < nHolders; i++ {
+		w := &worker{rel: true}
+		workers = append(workers, w)
+		go func(i int) {
+			w.gid.Store(c13GID())
+			defer w.done.Store(true)
+			<-startGate
+			for j := 0; j < 4000 && requestsLeft.Load() > 0; j++ {
+				c13HolderBodyStress(p, 1+(i+j)%4)
+				runtime.Gosched()
+			}
+		}(i)
+	}
 	time.Sleep(2 * time.Millisecond)
 	close(startGate)
 	params := fmt.Sprintf("stress|seed=%d|requests=%d|rounds=%d|reloads=%d|reloaders=%d", vlib.Seed(), nReq, nRounds, nReload, nReloaders)
 	if c13StressContinuous {
 		params += "|continuous=1"
+	}
+	if nHolders > 0 {
+		params += fmt.Sprintf("|holders=%d", nHolders)
 	}
 	hard := time.Now().Add(10 * time.Minute)
 	for {
@@ -980,12 +1125,31 @@ func c13Stress(t *testing.T, out *vlib.Out, r *vlib.Rand, nReq, nRounds, nReload
 	}
 	out.Checked()
 	out.Count("stress:all-complete")
+	if n := refusedReq.Load(); n > 0 {
+		out.OracleFail("C13:not-answered:request", fmt.Sprintf("%d request(s) that succeed when they run alone were answered with an error while reloads were running, e.g. %v", n, firstRefusedReq.Load()), params)
+		out.Count("stress:not-answered")
+	}
+	if n := refusedRel.Load(); n > 0 {
+		out.OracleFail("C13:not-answered:reload", fmt.Sprintf("%d reload(s) of an existing subnet file gave up while requests were running, e.g. %v", n, firstRefusedRel.Load()), params)
+		out.Count("stress:not-answered")
+	}
 	if mixed.Load() > 0 {
 		out.OracleFail("C13:mixed-versions", fmt.Sprintf("%d dual-stack response(s) mix two versions of the subnet set, e.g. %v", mixed.Load(), firstMixed.Load()), params)
 	}
 	if panics.Load() > 0 {
 		out.OracleFail("C13:panic", fmt.Sprintf("%d request goroutine(s) panicked", panics.Load()), params)
 	}
+}
+
+// c13HolderBodyStress: the write lock of selectorMutex held for a few scheduler yields.
+//
+//go:noinline
+func c13HolderBodyStress(p *RegProcessor, yields int) {
+	p.selectorMutex.Lock()
+	for k := 0; k < yields; k++ {
+		runtime.Gosched()
+	}
+	p.selectorMutex.Unlock()
 }
 
 // ---------------------------------------------------------------------------------------------
@@ -1021,12 +1185,15 @@ func c13Setup(t *testing.T) {
 	c13Calibrate(t)
 }
 
+var c13HoldersRe = regexp.MustCompile(`\|holders=(\d+)`)
+
 func TestVerifC13(t *testing.T) {
 	c13Setup(t)
 	defer os.RemoveAll(c13Dir)
 	out := vlib.Open("C13")
 	defer out.Close()
 	r := vlib.NewRand("C13")
+	c13Baseline(out)
 
 	if rp := vlib.Replay(); rp != "" {
 		f, err := os.Open(rp)
@@ -1056,6 +1223,9 @@ func TestVerifC13(t *testing.T) {
 				for _, d := range res.deadlock {
 					fmt.Println("  BLOCKED:", d)
 				}
+				for _, d := range res.refused {
+					fmt.Println("  NOT ANSWERED:", d)
+				}
 				for i, s := range res.texts {
 					fmt.Printf("  goroutine of thread %d:\n%s\n", i, s)
 				}
@@ -1067,8 +1237,12 @@ func TestVerifC13(t *testing.T) {
 					t.Fatalf("bad replay line %q: %v", line, err)
 				}
 				c13StressContinuous = strings.Contains(line, "|continuous=1")
+				c13StressHolders = 0
+				if m := c13HoldersRe.FindStringSubmatch(line); m != nil {
+					c13StressHolders, _ = strconv.Atoi(m[1])
+				}
 				c13Stress(t, out, r, a, b, c, d)
-				c13StressContinuous = false
+				c13StressContinuous, c13StressHolders = false, 0
 			}
 		}
 		return
@@ -1091,6 +1265,17 @@ func TestVerifC13(t *testing.T) {
 		{"q:46:late:zf,q:46:ok,r:ok", "s0,g0,g0,s1,s2,g1,g1"},
 		{"u:late:zf,u:ok,q:4:ok", "s0,s1,s2,g2"},
 		{"q:4:late:zf,u:ok,r:ok,u:early:short", "s0,s2,g0,s1,s3"},
+		// critical sections kept open by the stand-ins: a request arrives while the write lock is held (the swap
+		// window of a reload) - it waits and is answered; a request arrives while a real reload waits for the
+		// write lock behind a read section - it waits behind the reload and is answered from the new set; a
+		// reload arrives while a read section is open - it waits and completes
+		{"w:hold,q:46:ok", "s0,s1,g0,g1,g1"},
+		{"w:hold,q:4:ok,q:6:ok,r:ok", "s0,s1,s2,s3,g0"},
+		{"h:read,r:ok,q:46:ok", "s0,s1,s2,g0"},
+		{"h:read,r:ok,q:4:ok,u:ok", "s0,s1,s2,s3,g0,g2"},
+		{"h:read,r:ok", "s0,s1,g0"},
+		{"h:read,q:46:ok,r:ok", "s0,s1,g1,s2,g1,g0"},
+		{"w:hold,h:read,q:6:ok", "s0,s1,s2,g0,g1"},
 	}
 	for _, c := range corpus {
 		specs := strings.Split(c[0], ",")
@@ -1124,7 +1309,19 @@ func TestVerifC13(t *testing.T) {
 			sets = append(sets, []string{a, b, "r:ok"})
 		}
 	}
+	// every kind of request against an open write section, and behind a real reload that waits for an open
+	// read section; reloads against open sections of either kind
+	for _, a := range reqSpecs {
+		sets = append(sets, []string{"w:hold", a}, []string{"h:read", "r:ok", a})
+	}
+	sets = append(sets, []string{"h:read", "r:ok"}, []string{"w:hold", "r:ok"}, []string{"h:read", "r:early", "q:4:ok"},
+		[]string{"w:hold", "q:46:ok", "q:4:ok"}, []string{"w:hold", "q:46:ok", "r:ok"}, []string{"h:read", "w:hold", "q:46:ok"})
 	if vlib.Tier() == "thorough" {
+		for _, a := range reqSpecs[:4] {
+			for _, b := range reqSpecs[:4] {
+				sets = append(sets, []string{"w:hold", a, b, "r:ok"}, []string{"h:read", "r:ok", a, b})
+			}
+		}
 		for _, a := range reqSpecs[:3] {
 			for _, b := range reqSpecs[:5] {
 				sets = append(sets, []string{a, b, "r:ok", "r:ok"})
@@ -1159,6 +1356,17 @@ func TestVerifC13(t *testing.T) {
 				out.Note("model-guided sequence not applicable on the implementation: " + c13Line(set, events) + ": " + err.Error())
 			}
 		}
+		// … and the event sequence after which, in the model, a failed Try* acquisition has turned a thread away
+		if ans, ok := c13AskDriver("rwrefuse", set); ok && strings.HasPrefix(ans, "refused:") {
+			events := strings.Split(strings.TrimPrefix(ans, "refused:"), ".")
+			res, err := c13Run(set, events, true)
+			if err == nil {
+				c13Report(out, set, events, res)
+				out.Count("gen:model-guided-refusal")
+			} else {
+				out.Note("model-guided sequence not applicable on the implementation: " + c13Line(set, events) + ": " + err.Error())
+			}
+		}
 	}
 
 	// 3. random prefixes of larger thread sets, then drain
@@ -1179,6 +1387,12 @@ func TestVerifC13(t *testing.T) {
 				specs = append(specs, "r:early")
 			} else {
 				specs = append(specs, "r:ok")
+			}
+		}
+		if r.Chance(1, 2) {
+			specs = append(specs, []string{"w:hold", "h:read"}[r.Intn(2)])
+			if r.Chance(1, 4) {
+				specs = append(specs, []string{"w:hold", "h:read"}[r.Intn(2)])
 			}
 		}
 		// shuffle positions so that reloads are not always last
@@ -1209,7 +1423,9 @@ func TestVerifC13(t *testing.T) {
 	// 4. stress
 	rounds := vlib.Budget(3, 40)
 	for i := 0; i < rounds && c13Deadlocks < 40; i++ {
+		c13StressHolders = []int{0, 1, 2}[i%3]
 		c13Stress(t, out, r, r.Range(4, 24), r.Range(20, 120), r.Range(20, 200), r.Range(1, 3))
+		c13StressHolders = 0
 	}
 	// Continuous reload stress: lock windows that no gate can reach — e.g. between two acquisitions before
 	// the first selection — only open under real concurrency, so the processor is hammered with
@@ -1227,7 +1443,9 @@ func TestVerifC13(t *testing.T) {
 	if cont > 0 {
 		c13StressContinuous = true
 		for i := 0; i < cont && c13Deadlocks == 0; i++ {
+			c13StressHolders = i % 2
 			c13Stress(t, out, r, r.Range(10, 24), r.Range(50, 200), 1500, r.Range(1, 2))
+			c13StressHolders = 0
 			out.Count("gen:continuous-stress")
 		}
 		c13StressContinuous = false
@@ -1237,6 +1455,9 @@ func TestVerifC13(t *testing.T) {
 		for _, set := range [][]string{{"q:46:ok", "r:ok"}, {"q:4:ok", "r:ok"}, {"q:46:sel", "r:ok"}, {"q:4:sel", "r:ok"}, {"q:46:late", "r:ok"}} {
 			if ans, ok := c13AskDriver("rwsched", set); ok && strings.HasPrefix(ans, "deadlock:") {
 				out.Note("model (Model.RW.findDeadlock over the extracted programs): threads " + strings.Join(set, ",") + " deadlock under the fine-grained schedule " + strings.TrimPrefix(ans, "deadlock:") + " (thread index per step)")
+			}
+			if ans, ok := c13AskDriver("rwrefsched", set); ok && strings.HasPrefix(ans, "refused:") {
+				out.Note("model (Model.RW.findRefusal over the extracted programs): of the threads " + strings.Join(set, ",") + " one is turned away by a failed Try* acquisition under the fine-grained schedule " + strings.TrimPrefix(ans, "refused:") + " (thread index per step)")
 			}
 		}
 	}
